@@ -120,6 +120,7 @@ def check(v, prop, families, extra_clause_props=()):
     others = {}
     nfail = 0
     sigs = set()
+    nontrivial = set()
     for s in scns:
         fs = res.get(s['scn'], [])
         if s['status'] != 'ok':
@@ -134,12 +135,21 @@ def check(v, prop, families, extra_clause_props=()):
                               _replay(s, clause, idx))
             else:
                 others[clause] = others.get(clause, 0) + 1
-        sigs.add(json.dumps([st[0] for st in s['prog']]))
+        sigs.add(json.dumps(s['prog'], sort_keys=True))
+        if any(e['ev'] in ('cb_request', 'cb_setup', 'cb_keepalive_timeout', 'cb_close') for e in s['events']):
+            nontrivial.add(json.dumps(s['prog'], sort_keys=True))
     nev = sum(len(_filtered(s['events'])) for s in scns)
     v.add('traces_validated_against_impl', len(scns))
     v.add('trace_events_validated', nev)
     v.add('trace_states', stats['states'])
     v.add('distinct_schedules', len(sigs))
+    v.add('evaluations', len(scns))
+    v.add('distinct_nontrivial', len(nontrivial))
+    v.add('states', stats['states'])
+    v.add('transitions', stats['transitions'])
+    v.coverage['rule'] = ('scenario programs generated from VERIF_SEED per family (vf/harness/gen.py), executed on the real endpoints; '
+                          'distinct = distinct program text; non-trivial = at least one request/setup/close reached an application callback. '
+                          'states/transitions = TLC states over design-level configs plus trace-validation runs')
     v.add('steps_executed', sum(s['done'] for s in scns))
     v.add('steps_skipped_inapplicable', sum(s['skipped'] for s in scns))
     v.coverage.setdefault('other_properties_observed', {})
